@@ -332,6 +332,12 @@ def make_models():
         w = m.groups[0]         # re.match anchors at 0
         return (0, len(w) if isinstance(w, str) else w.length())
 
+    def m_end(I, m, g=0):
+        return m_span(I, m, g)[1]
+
+    def m_start(I, m, g=0):
+        return m_span(I, m, g)[0]
+
     def m_float(I, v=0):
         """float(text).  Rendered integer: exact iff |n| <= 2**53 (CPython: nearest binary64; every integer up to 2**53 is representable,
         beyond that the nearest double is an integer within |n|*2**-53).  Rendered fixed-point number: its decimal value (floats are reals)."""
@@ -423,7 +429,8 @@ def make_models():
 
     mods = {}
     for name, fn in (("re.match", m_match), ("re.findall", m_findall), ("builtins.float", m_float), ("scalar.is_integer", m_is_integer),
-                     ("builtins.int", m_int), ("itertools.groupby", m_groupby), ("MatchVal.span", m_span), ("NumMatch.span", m_span)):
+                     ("builtins.int", m_int), ("itertools.groupby", m_groupby), ("MatchVal.span", m_span), ("NumMatch.span", m_span),
+                     ("MatchVal.end", m_end), ("NumMatch.end", m_end), ("MatchVal.start", m_start), ("NumMatch.start", m_start)):
         mods[name] = ModelFn(name, fn)
     mods["RegexVal.match"] = ModelFn("RegexVal.match", lambda I, rx, s: m_match(I, rx, s))
     mods["RegexVal.findall"] = ModelFn("RegexVal.findall", lambda I, rx, s: m_findall(I, rx, s))
